@@ -1473,12 +1473,63 @@ def samename_family(seed, n):
     return out
 
 
+def nohelp_family(seed, n):
+    """items without a help text of their own: named ones are listed by name, positional ones are not listed - also in
+    front of a group under a header, whose other members are still listed"""
+    out = []
+    for i in range(n):
+        shape = i % 4
+        if shape == 0:
+            g = altf("g0", ["opt", "one", "many"][i % 3], branch(posb("q0", "str"), posb("q1", "int")),
+                     *([branch(rf("b1", "one", "--flag1"))] if i % 8 < 4 else []))
+            d = mkdef(f"nh{seed}_{i}", level([sw("o1", "-v"), g] if i % 8 < 4 else [g], NOTAIL), maxlen=1)
+        elif shape == 1:
+            d = mkdef(f"nh{seed}_{i}", level([sw("n0", "-x", "--exact"), ar("n1", "opt", "str", "--name"), sw("n2", "-v")],
+                                             postail(pos("p0", "opt")) if i % 8 < 4 else NOTAIL), maxlen=1)
+        elif shape == 2:
+            d = mkdef(f"nh{seed}_{i}", level([sw("o1", "-v")], postail(pos("p0", "one"), pos("p1", "opt"), pos("p2", "many"))), maxlen=1)
+        else:
+            sub = level([sw("s0", "--deep")], postail(pos("p0", "one"), pos("p1", "opt")))
+            d = mkdef(f"nh{seed}_{i}", level([ar("n1", "opt", "str", "--name")], cmdtail([cmd("run", sub), cmd("stop", level([], NOTAIL))])), maxlen=1)
+        d["nohelp"] = {0: ["q0"], 1: ["n0", "n1"], 2: ["p0", "p2"] if i % 8 < 4 else ["p1"], 3: ["p0", "n1"]}[shape]
+        if shape == 0:
+            d["force_gh"] = "g0"
+        out.append(d)
+    return out
+
+
+def strip_help(d):
+    """after decorate_for_help: the items named in d['nohelp'] lose their help text"""
+    ids = set(d.pop("nohelp", []))
+    force = d.pop("force_gh", None)
+    n = 0
+    for lvl in all_levels(d):
+        n += 1
+        items = [it for f in lvl["named"] for it in field_leaves(f)] + list(lvl["tail"].get("items", [])) + \
+            [x for f in lvl["named"] if f["kind"] == "alt" for b in f["branches"] for x in b["fields"] if x["kind"] == "pos"]
+        for it in items:
+            if it["id"] in ids:
+                it["help"] = ""
+                for k in ("help_more", "help_cuts", "help_all_nested", "group_help", "gh_words", "gh_cuts", "show_default"):
+                    it.pop(k, None)
+                it["hidden"] = False
+        for f in lvl["named"]:
+            if f["id"] == force:
+                if not f.get("group_help"):
+                    f["group_help"] = f"GROUP-{d['id']}x{n}-{f['id']}"
+                for b in f["branches"]:
+                    for x in b["fields"]:
+                        x["hidden"] = False
+    return d
+
+
 def help_family(seed, n):
     rnd = random.Random(seed)
     fam = conv_family(seed, n // 3, max_named=4, maxlen=2, budget=10**9) + cmd_family(seed + 1, n // 3, depth=3, maxlen=2, budget=10**9) \
         + alt_family(seed + 2, n // 6, maxlen=2, budget=10**9) + adj_family(seed + 3, n - 2 * (n // 3) - n // 6, maxlen=2, budget=10**9)
     fam += samename_family(seed + 4, max(2, n // 30))
-    fam = [decorate_for_help(d, rnd) for d in fam]
+    nh = nohelp_family(seed + 5, max(8, n // 30))
+    fam = [decorate_for_help(d, rnd) for d in fam] + [strip_help(decorate_for_help(d, rnd)) for d in nh]
     # the same visible name in two alternatives, differing in kind / metavariable (optional-value idiom)
     for i in range(max(2, n // 20)):
         a = ar("j0", "one", "str", "--jobs", adj=True)
